@@ -1,6 +1,6 @@
 (* C17 - Each wordseg command does what its Python function does.
    (a) option tables regenerated from ag.py / dpseg.py / main.cc / dpseg.cc on every run. *)
-From WS Require Import Base.Py Cli.Options gen.Options.
+From WS Require Import Base.Py Cli.Options gen.Options gen.Mains.
 From WS Require Import Base.Str Separator.Model Evaluate.Model Evaluate.ProofsScores Prepare.Model Prepare.Proofs Stats.Model Stats.Proofs Syll.Model Syll.ProofsLoop.
 
 (* every option the Python wrapper puts on the ag command line is declared by getopt
@@ -47,6 +47,23 @@ Proof.
     apply C17_dpseg_skips_only_none in E. discriminate.
 Qed.
 Print Assumptions C17_zero_reaches_the_programs.
+
+(* no partial result: the main() of every command (regenerated table gen/Mains.v) writes to the result stream
+   exactly once, outside any loop, so whatever the function has yielded before it fails, nothing is written *)
+Theorem C17_every_command_writes_once : forall row, In row main_writes -> mode_of row = WriteAll.
+Proof.
+  assert (H : forallb (fun row => match mode_of row with WriteAll => true | WriteEach => false end) main_writes = true)
+    by (vm_compute; reflexivity).
+  intros row Hin. rewrite forallb_forall in H. specialize (H row Hin). destruct (mode_of row); [reflexivity | discriminate].
+Qed.
+Print Assumptions C17_every_command_writes_once.
+
+Theorem C17_no_partial_result : forall row yielded, In row main_writes -> written (mode_of row) yielded true = [].
+Proof. intros row yielded Hin. rewrite (C17_every_command_writes_once row Hin). reflexivity. Qed.
+Print Assumptions C17_no_partial_result.
+
+Example C17_ten_commands : length main_writes = 10.
+Proof. reflexivity. Qed.
 
 (* (b) which errors the function models can report: the commands turn ValueError / RuntimeError
    into a one-line fatal error; the classifications below say when nothing else can be raised *)
